@@ -1008,9 +1008,18 @@ def confirm_ladder_violation(chk, project, tdir, name, trace, level, what=None):
                 s_ = rnd.randint(1, 10 * l)
                 script += [(0, 1.0)] * (s_ - 1) + [(rnd.choice([-1, -2, -3, -4, -6]), rnd.choice([0.0, 0.3, 0.7]))]
             dt = rnd.choice([1.0, 10.0, 3.15e7, 0.5])
-            out = native_ladder(project, tdir, dt, script)
+            # every other attempt lets one re-initialisation fail
+            reinit = []
+            if attempt % 2:
+                reinit = [0] * rnd.randint(0, 4) + [rnd.choice([-21, -22, -1])]
+            out = native_ladder(project, tdir, dt, script, reinit=reinit)
             tried += 1
             chk.replays_done += 1
+            want, _ = ladder_reference([f for f, _ in script], reinit)
+            if out.get("ret") in (SUCCESS, FAIL) and out.get("ret") != want:
+                chk.violation(name, what or f"Solve returns {'SUCCESS' if out.get('ret') == SUCCESS else 'FAIL'} where the documented recovery ladder gives {'SUCCESS' if want == SUCCESS else 'FAIL'}: integrator flags in call order {[f for f, _ in script][:12]}, re-initialisation flags {reinit}",
+                              {"target": tdir, "dt": dt, "script": script, "reinit_flags": reinit, "native": out, "documented": want, "solver_trace": trace})
+                return
             if out.get("ret") == SUCCESS and any(abs(v - dt) > 1e-6 * dt for v in out["y"].values()):
                 chk.violation(name, what or f"Solve returned SUCCESS but advanced the state by {sorted(out['y'].values())[0]!r} instead of dt={dt}: fault script {script[:8]}...",
                               {"target": tdir, "dt": dt, "script": script, "native": out, "solver_trace": trace})
